@@ -69,6 +69,14 @@ func queryTable(c *Ctx, rule string) {
 			if ta, ok := v.Tuple.(*ssa.TypeAssert); ok && v.Index == 1 && isNamed(ta.AssertedType, "ctree", "branch") {
 				return "ISBRANCH"
 			}
+			// the children map of this node (range operand): b, ok := t.leafBranch.(branch)
+			if ta, ok := v.Tuple.(*ssa.TypeAssert); ok && v.Index == 0 && isNamed(ta.AssertedType, "ctree", "branch") && loadOfField(e.Resolve(st, RV{r.F, ta.X}).V, fLB) {
+				return "CHILDREN"
+			}
+		case *ssa.TypeAssert:
+			if !v.CommaOk && isNamed(v.AssertedType, "ctree", "branch") && loadOfField(e.Resolve(st, RV{r.F, v.X}).V, fLB) {
+				return "CHILDREN"
+			}
 		}
 		return ""
 	}
@@ -163,6 +171,12 @@ func queryTable(c *Ctx, rule string) {
 			more = "every child/path[1:]/prefix+key"
 		}
 		rows = append(rows, row{"glob followed by more elements at a " + kind, 2, true, kind, false, more, kind == "branch", 0})
+		if kind == "branch" {
+			// a child stored under the literal name "*" does not capture the glob
+			rows = append(rows,
+				row{"one glob left at a branch that has a child named *", 1, true, kind, true, all, true, visits},
+				row{"glob followed by more elements at a branch that has a child named *", 2, true, kind, true, more, true, 0})
+		}
 		for _, pl := range []int64{1, 2} {
 			if kind == "branch" {
 				rows = append(rows,
@@ -178,8 +192,9 @@ func queryTable(c *Ctx, rule string) {
 		for k, v := range map[string]bool{"GLOB": rw.glob, "EMPTY": rw.kind == "empty", "NOCHILD": !rw.child} {
 			b["!"+k] = !v
 		}
-		at := &Atoms{Class: cls, Bool: b, Int: map[string]int64{"PLEN": rw.plen}}
-		e := &PPA{Cond: at.Cond, MaxVisits: 2, Watch: func(ev *Ev) bool { return isRec(ev) || isVisit(ev) }}
+		// a branch is replayed with exactly two children: every loop over them runs twice
+		at := &Atoms{Class: cls, Bool: b, Int: map[string]int64{"PLEN": rw.plen, "len(CHILDREN)": 2}}
+		e := &PPA{Cond: at.Cond, MaxVisits: 4, Watch: func(ev *Ev) bool { return isRec(ev) || isVisit(ev) }}
 		e.Run(qi)
 		c.Paths += len(e.Paths)
 		c.Scen++
@@ -216,6 +231,11 @@ func queryTable(c *Ctx, rule string) {
 				}
 				if len(got) > 0 {
 					sawLoop = true
+				}
+				// both children are descended into, unless the walk stops with the error of a descent
+				stopped := len(got) >= 1 && len(p.Rets) == 1 && retClass(p.Rets[0]) == "call:"+fnName(qi)
+				if len(got) != 2 && !stopped {
+					ok = false
 				}
 			} else if rw.want == "" {
 				ok = ok && len(got) == 0
